@@ -13,11 +13,12 @@ BORROWED = {
     "C01": {"C02": {"C02-D5c children embedded by value": "C01-r2-1"},
             "C05": {"C05-G1 no normal exit skips the work": "C01-r3-3"}},
     "C02": {"C01": {"C01-D3 no severable member skipped": "C02-3, C02-r4-1"},
-            "C05": {"C05-D1a digest forms": "C02-r3-1"},
+            "C05": {"C05-D1a digest forms": "C02-r3-1", "C05-D1c size forms": "C02-r6-1"},
             "C06": {"C06-G1 no normal exit skips the work": "C02-r4-3"},
             "C13": {"C13-D1a description forms": "C02-r2-3"},
             "C18": {"C18-D2 no shared state written after import": "C02-r2-3"}},
-    "C03": {"C02": {"C02-D2 order preserving encode path": "C03-r2-3"},
+    "C03": {"C02": {"C02-D2 order preserving encode path": "C03-r2-3", "C02-D5b constructors store the value unchanged": "C03-r6-3"},
+            "C08": {"C08-b uniqueness": "C03-r6-2"},
             "C05": {"C05-D1e payload forms": "C03-r4-2", "C05-D2 dependency embedded = dependency created alone": "C03-r2-1",
                     "C05-D1h literal hex recognised": "C03-r5-3"},
             "C18": {"C18-D1 no nondeterministic source on the deterministic commands": "C03-r2-1"}},
@@ -30,8 +31,10 @@ BORROWED = {
     "C07": {"C13": {"C13-D2d assign_role plumbing": "C07-3", "C13-D4 quoted configuration values stay text": "C07-r3-3"},
             "C18": {"C18-D2 no shared state written after import": "C07-r2-3"}},
     "C08": {"C02": {"C02-D1 shape": "C08-r3-2"},
-            "C03": {"C03-D3 union alternatives and order": "C08-r3-2"}},
-    "C09": {"C04": {"C04-D1b authentication block": "C09-r4-2", "C04-D3 fixed-width r||s": "C09-r4-1"}},
+            "C03": {"C03-D3 union alternatives and order": "C08-r3-2"},
+            "C17": {"C17-D3 nullable metadata": "C08-r6-3"}},
+    "C09": {"C04": {"C04-D1b authentication block": "C09-r4-2", "C04-D3 fixed-width r||s": "C09-r4-1",
+                    "C04-D2 protected header": "C09-r6-3"}},
     "C10": {"C11": {"C11-D1a selection": "C10-r3-1, C10-r4-3", "C11-D1c pairing": "C10-r5-3"},
             "C18": {"C18-D2 no shared state written after import": "C10-r2-2"}},
     "C11": {"C10": {"C10-D2r padding result (refutation)": "C11-r4-3"}},
@@ -43,9 +46,11 @@ BORROWED = {
     "C17": {"C02": {"C02-D1 shape": "C17-r2-2"}},
     "C18": {"C05": {"C05-D1a digest forms": "C18-r3-2", "C05-D1f payload classification": "C18-r3-3, C18-r4-2"},
             "C12": {"C12-G2 the analysed effect is present": "C18-r5-2"},
-            "C09": {"C09-D2 no output on refusal": "C18-r5-3"}},
+            "C09": {"C09-D2 no output on refusal": "C18-r5-3"},
+            "C04": {"C04-D1a Sig_structure": "C18-r6-3"}},
     "C19": {"C05": {"C05-D1a digest forms": "C19-2, C19-r2-2, C19-r3-2, C19-r4-2"},
-            "C13": {"C13-D1a description forms": "C19-r2-1"},
+            "C13": {"C13-D1a description forms": "C19-r2-1", "C13-D3 template fallback names": "C19-r6-2"},
+            "C17": {"C17-D1b from_cbor receives bytes": "C19-r6-3"},
             "C20": {"C20-D3c nothing is published for a missing value": "C19-r4-3"}},
     "C20": {"C18": {"C18-D2 no shared state written after import": "C20-r2-1"}},
 }
